@@ -100,6 +100,11 @@ def check_json(P, ver, prefix, s, sort, minimal, o=None):
     if not ok:
         P.violation("schema-valid", "C10:v%s:as_json-raises:%s" % (tag, obs.exc_name(d)), case, error=repr(d))
         return
+    judge_doc(P, ver, tag, d, case)
+
+
+def judge_doc(P, ver, tag, d, case):
+    """Schema validation of one as_json() result (also used as icontract postcondition)."""
     ok, doc = obs.call(lambda: json.loads(json.dumps(d)))
     if not ok:
         P.violation("schema-valid", "C10:v%s:not-json-serialisable:%s" % (tag, obs.exc_name(doc)), case, error=repr(doc))
@@ -219,6 +224,15 @@ def shard(P, ver, idx, nshards, n, seed):
 
 
 def run(R):
+    _run(R)
+    # objects the LIBRARY builds itself (text extractor, from_rh_vector, CLI, the repository's own tests)
+    # are judged by the same oracles through icontract contracts attached to the real classes
+    from .. import contracts
+    contracts.session(R, "C10")
+    R.require("contract:as_json")
+
+
+def _run(R):
     R.rule = RULE
     R.require("schema-valid")
     R.assumptions = ["pinned copies of FIRST's cvss-v2.0/3.0/3.1/4.0 JSON schemas (sha256 in DESIGN.md); jsonschema's "
